@@ -139,6 +139,8 @@ def gen_desc(rng: random.Random, pname: str, thorough: bool) -> dict:
         n = rng.randint(3, 5)
         nsteps = rng.randint(4, 14)
     qutrits = rng.random() < 0.2
+    if qutrits and not big:
+        n = min(n, 6)
     radixes = [3 if qutrits and rng.random() < 0.4 else 2 for _ in range(n)]
     k = rng.choice([2, 2, 3, 3, 3, 4, 4, 5, 6])
     if pname in ('GreedyPartitioner', 'ClusteringPartitioner'):
@@ -252,12 +254,24 @@ def make_pass(pname, k, arg2):
     raise KeyError(pname)
 
 
+def make_data(c):
+    """PassData for `c`.  PassData(c) computes the full unitary of `c` when it has
+    at most 8 qudits (the synthesis target) - irrelevant for partitioning and by
+    far the most expensive step of a case - so it is built on an empty circuit
+    of the same shape; everything else in it depends on the shape only."""
+    from bqskit.compiler.passdata import PassData
+    from bqskit.ir.circuit import Circuit
+    if c.num_qudits > 8:
+        return PassData(c)          # lazy target
+    return PassData(Circuit(c.num_qudits, c.radixes))
+
+
 def run_pass(pname, k, arg2, c, npseed):
     from bqskit.compiler.machine import MachineModel
     from bqskit.compiler.passdata import PassData
     from bqskit.qis.graph import CouplingGraph
     np.random.seed(npseed)
-    data = PassData(c)
+    data = make_data(c)
     if pname == 'ExtendBlockSizePass' and arg2 == 1 and c.num_qudits > 1:
         data.model = MachineModel(
             c.num_qudits, CouplingGraph.linear(c.num_qudits),
